@@ -215,7 +215,7 @@ func (p *specParser) expr(minPrec int) (*SExpr, error) {
 
 func (p *specParser) unary() (*SExpr, error) {
 	t := p.peek()
-	if t.kind == "op" && (t.text == "!" || t.text == "-" || t.text == "^") {
+	if t.kind == "op" && (t.text == "!" || t.text == "-" || t.text == "^" || t.text == "*") {
 		p.next()
 		x, err := p.unary()
 		if err != nil {
@@ -427,6 +427,14 @@ type Contract struct {
 	LoopMod   map[int][]string
 	Decreases []*Clause
 	Asserts   []*Clause // assert at "text": expr   /  assume at "text": expr
+	Ghosts    []*GhostVar
+}
+
+type GhostVar struct {
+	Name string
+	Type string
+	Init *SExpr
+	Src  string
 }
 
 type SpecFunc struct {
@@ -503,6 +511,48 @@ func (cs *ContractSet) loadContractFile(path, pkgPath string) error {
 				return fail(fmt.Errorf("duplicate contract for %s", key))
 			}
 			cs.Funcs[key] = cur
+		case "ghost":
+			// ghost name type = init-expr   (init evaluated in the entry state)
+			if cur == nil {
+				return fail(fmt.Errorf("ghost outside func"))
+			}
+			eqi := strings.Index(rest, "=")
+			if eqi < 0 {
+				return fail(fmt.Errorf("ghost needs: name type = expr"))
+			}
+			nt := strings.Fields(rest[:eqi])
+			if len(nt) != 2 {
+				return fail(fmt.Errorf("ghost needs: name type = expr"))
+			}
+			e, err := parseSpecExpr(rest[eqi+1:])
+			if err != nil {
+				return fail(err)
+			}
+			cur.Ghosts = append(cur.Ghosts, &GhostVar{Name: nt[0], Type: nt[1], Init: e, Src: rest})
+		case "ghostset":
+			// ghostset at "text": name = expr
+			if cur == nil {
+				return fail(fmt.Errorf("ghostset outside func"))
+			}
+			w2, r2 := splitWord(rest)
+			if w2 != "at" || !strings.HasPrefix(r2, "\"") {
+				return fail(fmt.Errorf("expected: ghostset at \"source text\": name = expr"))
+			}
+			end := strings.Index(r2[1:], "\":")
+			if end < 0 {
+				return fail(fmt.Errorf("expected: ghostset at \"source text\": name = expr"))
+			}
+			match := r2[1 : 1+end]
+			body := strings.TrimSpace(r2[end+3:])
+			eqi := strings.Index(body, "=")
+			if eqi < 0 {
+				return fail(fmt.Errorf("ghostset needs name = expr"))
+			}
+			e, err := parseSpecExpr(body[eqi+1:])
+			if err != nil {
+				return fail(err)
+			}
+			cur.Asserts = append(cur.Asserts, &Clause{Kind: "ghostset:" + strings.TrimSpace(body[:eqi]), Match: match, Expr: e, Src: body, Line: c.no, File: path})
 		case "assert", "assume":
 			if cur == nil {
 				return fail(fmt.Errorf("%s outside func", word))
@@ -589,7 +639,7 @@ func (cs *ContractSet) loadContractFile(path, pkgPath string) error {
 					cur.Modifies = append(cur.Modifies, m)
 				}
 			}
-		case "pure", "trusted", "inline", "lemma", "noinline", "opaque", "entry":
+		case "pure", "trusted", "inline", "lemma", "noinline", "opaque", "entry", "safety_off":
 			if cur == nil {
 				return fail(fmt.Errorf("%s outside func", word))
 			}
